@@ -270,12 +270,22 @@ def solver_options(method, fatol=None, maxiter=60):
 LADDER = (1.0 / 64, 1.0 / 16, 1.0 / 4, 1.0 / 2, 1.0)
 
 
-def solve_ladder(spec, ladder=LADDER, fatol=None, maxiter=60, perturb=None):
-    """density continuation; yields (scale, prism, result) for every rung (result.success may be False)"""
+def solve_ladder(spec, ladder=LADDER, fatol=None, maxiter=60, perturb=None, reuse_system=False):
+    """density continuation; yields (scale, prism, result) for every rung (result.success may be False).
+    reuse_system: one System object is built once and only its densities are edited from rung to rung (a parameter sweep)"""
     guess = None
     method = spec.get('method', 'krylov')
+    shared = None
     for f in ladder:
-        s = build_system(spec, f)
+        if reuse_system:
+            if shared is None:
+                shared = build_system(spec, f)
+            else:
+                for t, r_ in zip(shared.types, density_of(spec, f)):
+                    shared.density[t] = r_
+            s = shared
+        else:
+            s = build_system(spec, f)
         pr = quiet(s.createPRISM)
         n = len(spec['types']) ** 2 * spec['domain']['length']
         g = np.zeros(n) if guess is None else guess
